@@ -280,6 +280,27 @@ def immutable_views(ctx, pairs, rng):
         vp = views_problem(o, list(pairs), ks)
         if vp:
             ctx.violation(f"immutable-view|{name}|{vp}", {"pairs": pairs}, "")
+    # copies made the generic ways (copy, deepcopy, pickle round trip) are mappings with the same pairs and consistent views
+    import copy
+    import pickle
+    for name in ("MultiMapping", "QueryParams", "MutableMultiMapping"):
+        for how, fn in (("copy", copy.copy), ("deepcopy", copy.deepcopy), ("pickle", lambda x: pickle.loads(pickle.dumps(x)))):
+            try:
+                c = fn(objs[name])
+            except Exception as e:  # noqa
+                if how == "pickle" and not all(isinstance(v, (str, int, float, bytes, tuple, type(None), bool, list)) for _, v in pairs):
+                    continue
+                ctx.violation(f"immutable-view|{how}-of-{name}|exception-{type(e).__name__}", {"pairs": pairs}, repr(e)[:120])
+                continue
+            vp = views_problem(c, list(pairs), ks)
+            if vp or type(c) is not type(objs[name]):
+                ctx.violation(f"immutable-view|{how}-of-{name}|{vp or 'other-class'}", {"pairs": pairs}, "")
+            elif name == "MutableMultiMapping" and how != "copy":
+                # (a shallow copy.copy() of an object shares what the object refers to - that is Python's rule, not judged)
+                c.append("zz-new", "1")  # a deep copy / an unpickled copy is a mapping of its own
+                vp = views_problem(objs[name], list(pairs), ks)
+                if vp:
+                    ctx.violation(f"aliasing|{how}-shares-state-with-the-original|{vp}", {"pairs": pairs}, "")
     # mapping constructor: a dict and other Mapping implementations
     import collections
     import types
